@@ -107,6 +107,41 @@ theorem token_limit_refuses_reference_text (cls : CharClass) (tb : Tables) (hA :
       .err ⟨"E1007", .at ((sepBytes lead ++ (flat2 items ++ tail)).length - tail.length)⟩ :=
   token_limit_refuses cls tb hA lead items tail htail hne hlead hok hsize hcount
 
+/-! ### the byte limit -/
+open GoSQLXModel.Lex in
+/-- **C02 (byte clause, refusal)**: every input longer than the documented 10 MiB — whatever it contains, under every
+    character classification — is refused with the dedicated size error before any byte is read. -/
+theorem byte_limit_refuses (cls : CharClass) (inp : Bytes) (h : inp.length > 10 * 1024 * 1024) :
+    tokenize cls genLexTables inp = .err ⟨"E1006", .fixed⟩ := by
+  have hm : genLexTables.maxInput = 10 * 1024 * 1024 := by decide
+  simp only [tokenize, hm, h, if_true]
+
+open GoSQLXModel.Lex in
+/-- **C02 (byte clause, boundary)**: an input of at most — in particular of exactly — 10 MiB passes the size test and
+    is handed to the tokenizer loop: whatever `tokenize` then answers is the loop's answer. -/
+theorem byte_limit_boundary (cls : CharClass) (inp : Bytes) (h : inp.length ≤ 10 * 1024 * 1024) :
+    tokenize cls genLexTables inp = lexLoop cls genLexTables inp (inp.length + 1) inp [] [] := by
+  have hm : genLexTables.maxInput = 10 * 1024 * 1024 := by decide
+  have hn : ¬ inp.length > genLexTables.maxInput := by omega
+  simp only [tokenize, hn, if_false]
+
+open GoSQLXModel.Lex in
+/-- … and for every text of the reference grammar of exactly 10 MiB (and no more than the token limit) that answer is
+    acceptance, with the tokens the text spells -/
+theorem reference_text_at_byte_limit_accepted (cls : CharClass) (hA : AsciiOK cls) (lead : List Piece) (items : List Item2)
+    (hlead : lead.all Piece.ok = true) (hok : seqOK cls genLexTables items = true)
+    (hsize : (sepBytes lead ++ flat2 items).length = 10 * 1024 * 1024) (hcount : items.length ≤ 1000000) :
+    ∃ toks cs, tokenize cls genLexTables (sepBytes lead ++ flat2 items) = .ok toks cs ∧
+      toks.map Tok.key = (items.map fun it => it.1.key cls genLexTables) ++ [(0, [])] := by
+  have hm : genLexTables.maxInput = 10 * 1024 * 1024 := by decide
+  have ht : genLexTables.maxTokens = 1000000 := by decide
+  obtain ⟨toks, cs, h1, h2, _⟩ := tokenize_spell2 cls genLexTables hA lead items hlead hok (by omega) (by omega)
+  exact ⟨toks, cs, h1, h2⟩
+
+/-- the same boundary with the limit set to 5: five bytes pass, six are refused whatever they are -/
+example : (match Lex.tokenize .ascii { Lex.genLexTables with maxInput := 5 } [97, 32, 98, 32, 99] with | .ok out _ => out.length | _ => 0) = 4 ∧
+    Lex.tokenize .ascii { Lex.genLexTables with maxInput := 5 } [97, 32, 98, 32, 99, 32] = .err ⟨"E1006", .fixed⟩ := by decide +kernel
+
 /-- non-vacuity, with the limit set to 3: `a;b` are three lexemes in two statements, `;c` follows -/
 def small : Lex.Tables := { Lex.genLexTables with maxTokens := 3 }
 example : Lex.seqOKT .ascii small [59, 99] [(.word [97], []), (.op [59], []), (.word [98], [])] = true ∧ Lex.stopB [59, 99] = true := by
